@@ -1,11 +1,13 @@
 import ChessVerif.Props.C15
 open Chess.Props.C15
-#print axioms makeMove_illegal
-#print axioms makeMove_legal
-#print axioms setBoard_resets
-#print axioms beq_refl
-#print axioms beq_symm
-#print axioms beq_trans
-#print axioms add_flag
-#print axioms satAdd8_le
-#print axioms satAdd8_three
+#print axioms bot_refines
+#print axioms bot_refines_from
+#print axioms Chess.Props.C15.makeMove_illegal
+#print axioms Chess.Props.C15.makeMove_legal
+#print axioms Chess.Props.C15.setBoard_resets
+#print axioms Chess.Props.C15.beq_refl
+#print axioms Chess.Props.C15.beq_symm
+#print axioms Chess.Props.C15.beq_trans
+#print axioms Chess.Props.C15.add_flag
+#print axioms Chess.Props.C15.satAdd8_le
+#print axioms Chess.Props.C15.satAdd8_three
